@@ -184,8 +184,8 @@ def m_oo_open(it, argv, text):
             n[2] = ()
             env.log.append(('truncate', E.printable(E.comps_to_bytes(comps))))
     h = env.open_handle(comps, 'w' if (wr or ap) else 'r')
-    if ap and n is not None:
-        pass      # appends go to the end: _append always appends
+    if wr and not ap:
+        env.handles[h]['positional'] = True          # writes go to the handle's offset (0 after open), not to the end
     return S.ok(OpaqueV('File', h))
 
 
@@ -200,7 +200,8 @@ def m_de_file_name(it, argv, text):
 def m_de_file_type(it, argv, text):
     env = E.env_of(it)
     p = it.deref_all(argv[0]).data.b
-    n = env.lookup(p)
+    # DirEntry::file_type / DirEntry::metadata do NOT follow a symbolic link in the last component (std docs)
+    n = env.find(env.norm(p), follow=False)
     if n is None:
         return S.err(E.io_error('NotFound'))
     return S.ok(OpaqueV('Metadata', (n[1], len(n[2]) if n[1] == 'file' else 4096)))
@@ -216,14 +217,26 @@ def m_ft_is_file(it, argv, text):
     return it.deref_all(argv[0]).data[0] == 'file'
 
 
-@model('FileType::is_symlink', 'Metadata::is_symlink', 'Path::is_symlink')
+@model('FileType::is_symlink', 'Metadata::is_symlink')
 def m_is_symlink(it, argv, text):
-    return False
+    d = it.deref_all(argv[0])
+    return isinstance(d, OpaqueV) and isinstance(d.data, tuple) and d.data[0] == 'symlink'
+
+
+@model('Path::is_symlink')
+def m_path_is_symlink(it, argv, text):
+    env = E.env_of(it)
+    n = env.find(env.norm(E.path_arg(it, argv[0])), follow=False)
+    return n is not None and n[1] == 'symlink'
 
 
 @model('symlink_metadata', 'Path::symlink_metadata')
 def m_symlink_metadata(it, argv, text):
-    return E.m_metadata(it, argv, text)
+    env = E.env_of(it)
+    n = env.find(env.norm(E.path_arg(it, argv[0])), follow=False)
+    if n is None:
+        return S.err(E.io_error('NotFound'))
+    return S.ok(OpaqueV('Metadata', (n[1], len(n[2]) if n[1] == 'file' else 4096)))
 
 
 @model('PathBuf::pop')
